@@ -59,7 +59,7 @@ def make_run(pre_factories, distinct, backend, same_backend=True):
                 want = TypeError if (not same_backend) else ValueError
                 vc.require(p.pc, z3.BoolVal(isinstance(e, want)), f"U1: refusal raised {type(e).__name__}, documented {want.__name__}", wit)
                 continue
-            _, new, state, aux, tables = p.value
+            _, new, state, aux, tables, _probe = p.value
             vc.require(p.pc, z3.BoolVal(not (L.grp or R.grp) and same_backend), "U1: a union with a grouped table / another backend was accepted", wit)
             vc.require(p.pc, same_sets, "U1: a union of tables with different visible name sets was accepted", wit)
             c = new._cache
